@@ -256,9 +256,14 @@ def main_c03():
                             xinf = _ssa.eval_tree(g_["a"], float(pts[i]), prm, mp)
                             tau = _ssa.eval_tree(g_["b"], float(pts[i]), prm, mp)
                             want = xinf + (mp.mpf(x) - xinf) * mp.exp(-mp.mpf(dt) / tau)
-                            if abs(mp.mpf(float(new[i])) - want) > 1e-9:
+                            # the time constant is formed from 1 - s_inf, which loses digits where s_inf is close to 1: a backward
+                            # stable evaluation is off by a few ulps of s_inf relative to 1 - s_inf, times the sensitivity to log tau
+                            sens = abs((mp.mpf(x) - xinf) * mp.exp(-mp.mpf(dt) / tau) * (mp.mpf(dt) / tau))
+                            tol = mp.mpf("1e-9") + 16 * mp.mpf("2.3e-16") / max(1 - xinf, mp.mpf("1e-300")) * sens
+                            if abs(mp.mpf(float(new[i])) - want) > tol:
                                 chk.violation({**sig, "what": "update differs from the closed-form solution"},
-                                              {"v": float(pts[i]), "dt": dt, "x": x, "new": float(new[i]), "want": float(want), "param": pv})
+                                              {"v": float(pts[i]), "dt": dt, "x": x, "new": float(new[i]), "want": float(want), "param": pv,
+                                               "tolerance": float(tol)})
                                 break
                         continue
                     # closed form x_inf + (x - x_inf) exp(-dt/tau) from the code's own rates, in 40 digits
